@@ -268,4 +268,23 @@ example : (([Op.mark ⟨0, 0⟩ 4, .commitOk, .mark ⟨0, 0⟩ 2, .commitFailed,
 example : commitArgs ⟨{}, [103], .latest, 0, [([116], [])], [], [], [(⟨0, 0⟩, ⟨4, true⟩), (⟨0, 1⟩, ⟨9, false⟩)]⟩ = [([116], 0, 5)] := by
   simp [commitArgs, Consumer.topicName]
 
+open Kafka.Props.C07 in
+/-- **restart, the whole assignment**: a new consumer of the group - any number of topics and partitions, any shape of the
+    coordinator's reply - starts every partition whose stored offset is `mark + 1` (what a commit persists for a mark, see
+    `C08_commit_content`) and lies within the partition's current range exactly there: at the first message not yet consumed -/
+theorem C08_restart_assignment {σ} (fb : Fallback) (as : List (Bytes × List Int)) (tpos : List (Bytes × List (Int × Int))) (mb : Int)
+    (latest earliest : List (Bytes × List (Int × Int))) (tps : List (Bytes × Int)) (w w1 w2 : W σ)
+    (consumed : List (TP × Consumed)) (fo : List (TP × FetchState))
+    (hnd : (tps.map (keyOf as)).Nodup)
+    (h1 : loadState.ins as tpos [] w = (w1, Outcome.ok consumed))
+    (h2 : loadState.go2 fb as consumed mb latest earliest tps [] w1 = (w2, Outcome.ok fo))
+    (tp : Bytes × Int) (htp : tp ∈ tps) (mark : Int)
+    (hrep : reportedCommit as tpos (keyOf as tp) = mark + 1) (hne : mark + 1 ≠ -1)
+    (hr : reported earliest tp ≤ mark + 1 ∧ mark + 1 ≤ reported latest tp) :
+    assocGet fo (keyOf as tp) = some ⟨mark + 1, mb⟩ := by
+  obtain ⟨_, hall⟩ := C07_create fb as tpos mb latest earliest tps w w1 w2 consumed fo hnd h1 h2
+  obtain ⟨o, hs, hg⟩ := hall tp htp
+  rw [hrep] at hs
+  simp only [specStart, committedOf, ne_eq, hne, not_false_eq_true, if_true, hr, and_self, Except.ok.injEq] at hs
+  rw [hg, ← hs]
 end Kafka.Props.C08
